@@ -12,6 +12,10 @@ class IterFault(Exception):
     """Raised by a faulty iterable (a plain Exception subclass, as user code would raise)."""
 
 
+class IterAbort(BaseException):
+    """Raised by a faulty iterable the way KeyboardInterrupt / SystemExit arrive: not an Exception subclass."""
+
+
 @contextlib.contextmanager
 def file_size_limit(nbytes):
     """No file of this process may grow beyond nbytes while the block runs."""
